@@ -12,6 +12,7 @@ pub fn err_kind(e: &Error) -> String {
     match e {
         Error::NotEnoughBytes => "err:verifier-NotEnoughBytes".into(),
         Error::BytesError(_) => "err:verifier-invalid".into(),
+        Error::InvalidEvalDomainSize { .. } => "err:verifier-domain".into(),
         Error::InconsistentPublicInputsLen { .. } => "err:pilen".into(),
         Error::ProofVerificationError => "err:verify".into(),
         other => format!("err:other:{:?}", other).replace(' ', "_"),
@@ -544,4 +545,54 @@ pub fn encodings(line: &str) -> Vec<String> {
     out.push(format!("pp {}", bytes_hex(&pp.to_var_bytes())));
     out.push(format!("ppraw {}", bytes_hex(&pp.to_raw_var_bytes())));
     out
+}
+
+/// `concprove <threads> <deg> <d1> <d2> <d3> <label> <draws> || <prog>`: `threads` threads prove and verify
+/// concurrently on shared keys (each with its own rotation of the scripted draws); every result must equal the
+/// result of the same call made sequentially.
+pub fn concprove_line(line: &str) -> String {
+    let parts: Vec<&str> = line.split("||").collect();
+    let h: Vec<&str> = parts[0].split_whitespace().collect();
+    if parts.len() != 2 || h.len() != 8 {
+        return "bad-request".into();
+    }
+    let threads: usize = match h[1].parse() {
+        Ok(t) => t,
+        Err(_) => return "bad-request".into(),
+    };
+    let pp = match crate::kzg::setup(h[2], &h[3..6]) {
+        Some(Ok(pp)) => pp,
+        _ => return "err:srs".into(),
+    };
+    let label = hex_bytes(h[6]).unwrap_or_default();
+    let draws: Option<Vec<Vec<u8>>> = h[7].split(',').map(|d| hex_bytes(d).filter(|b| b.len() == 64)).collect();
+    let draws = match draws {
+        Some(d) => d,
+        None => return "bad-request".into(),
+    };
+    let c = ProgCircuit { src: parts[1].trim().to_string() };
+    let (prover, verifier) = match Compiler::compile_with_circuit(&pp, &label, &c) {
+        Ok(x) => x,
+        Err(e) => return format!("err:compile:{:?}", e),
+    };
+    let script = |i: usize| {
+        let mut d = draws.clone();
+        let k = i % d.len();
+        d.rotate_left(k);
+        d
+    };
+    let one = |i: usize| -> Option<Vec<u8>> {
+        let mut rng = ScriptRng::scripted(0xabc, script(i));
+        let (proof, pis) = prover.prove(&mut rng, &c).ok()?;
+        verifier.verify(&proof, &pis).ok()?;
+        Some(proof.to_bytes().to_vec())
+    };
+    let sequential: Vec<Option<Vec<u8>>> = (0..threads).map(one).collect();
+    let concurrent: Vec<Option<Vec<u8>>> = std::thread::scope(|s| {
+        let hs: Vec<_> = (0..threads).map(|i| s.spawn(move || one(i))).collect();
+        hs.into_iter().map(|h| h.join().unwrap_or(None)).collect()
+    });
+    let ok = sequential.iter().all(|x| x.is_some()) && sequential == concurrent;
+    let first = sequential.first().cloned().flatten().map(|b| bytes_hex(&b)).unwrap_or_default();
+    format!("conc={} threads={} proof0={}", if ok { "ok" } else { "differ" }, threads, first)
 }
